@@ -59,7 +59,7 @@ func TestVerifC16(t *testing.T) {
 	out := vharness.Open()
 	defer out.Close()
 	rng := vharness.Rng()
-	budget := vharness.Budget(900, 40000)
+	budget := vharness.Budget(900, 20000)
 	A, U := func(k uint64) vsched.NotifyOp { return vsched.NotifyOp{Kind: "assoc", K: k} }, func(k, v uint64) vsched.NotifyOp { return vsched.NotifyOp{Kind: "upd", K: k, V: v} }
 	scenarios := []vsched.NotifyScenario{
 		{CallsA: 1, Ops: []vsched.NotifyOp{A(1)}},
